@@ -745,7 +745,7 @@ func (e *Exec) seqTerm(st *State, s *SeqV) *smt.Term {
 	}
 	t := c.FreshOver("seq", sortByteSeq, s.Len, s.Read(e.seqProbe))
 	e.seqByKey[key] = t
-	k := c.BoundVar("k", smt.BV(64))
+	k := c.BoundVar("defk", smt.BV(64))
 	at := func(x, i *smt.Term) *smt.Term { return c.App(fmt.Sprintf("seq_at%d", s.W), smt.BV(s.W), x, i) }
 	ln := func(x *smt.Term) *smt.Term { return c.App("seq_len", smt.BV(64), x) }
 	e.addAxioms(
@@ -1047,8 +1047,16 @@ func (se *specEnv) call(n *SCall) Value {
 		// iszero(x): the zero-value test reflect.DeepEqual(x, T{}) performs on a
 		// struct value read from memory (uninterpreted)
 		sv, ok := se.eval(n.Args[0]).(*StructV)
-		if !ok || sv.Origin == nil {
-			se.fail("iszero of a value that is not a struct read from memory")
+		if !ok {
+			se.fail("iszero of a non-struct value")
+		}
+		if sv.Zero {
+			return boolV(c.True())
+		}
+		if sv.Origin == nil {
+			// a value assembled by the code (no single term stands for it): the
+			// test is an unknown boolean
+			return boolV(c.Fresh("iszero", smt.Bool))
 		}
 		return boolV(c.App("isZero_"+smt.Sanitize(sv.Origin.Sort.String()), smt.Bool, sv.Origin))
 	case "pristine":
@@ -1643,7 +1651,7 @@ func (e *Exec) strBytes(s *smt.Term) *smt.Term {
 	c := e.C
 	sb := c.App("str_bytes", sortByteSeq, s)
 	ln := c.App("str_len", smt.BV(64), s)
-	k := c.BoundVar("k", smt.BV(64))
+	k := c.BoundVar("defk", smt.BV(64))
 	e.addAxioms(
 		c.Eq(c.App("seq_len", smt.BV(64), sb), ln),
 		c.BVSle(bv64(c, 0), ln), c.BVSle(ln, c.BVC(maxLen, 64)),
